@@ -116,6 +116,21 @@ SPECS["C15"] = dict(
     ])
 
 
+SPECS["C16"] = dict(
+    title="the dependency graph is an order-respecting DAG of the operations",
+    imports="From Coq Require Import List Arith Bool Lia Relations.\nImport ListNotations.\nFrom BB Require Import Graph GraphP.",
+    items=[
+        dict(name="nodes_char", comment="exactly one node per operation (that touches a wire)"),
+        dict(name="nodes_NoDup"),
+        dict(name="edges_char", comment="the executable edge construction (consecutive operations on each wire, mirroring to_DiGraph) is the relation Consec"),
+        dict(name="edges_forward_exec", comment="every edge points from an earlier to a later operation; the graph is acyclic"),
+        dict(name="acyclic_exec"),
+        dict(name="reach_exec_iff_chain", comment="j is reachable from i exactly when a chain of operations from i to j successively share a wire (mode or measured register)"),
+        dict(name="topo_keeps_wire_order_exec", comment="every topological order keeps the program's order on every wire"),
+    ],
+    examples="(* non-vacuity: GraphP computes edges/nodes of two concrete programs (ex1, ex2) by vm_compute *)\n")
+
+
 def main():
     which = sys.argv[1:] or sorted(SPECS)
     for p in which:
